@@ -174,4 +174,52 @@ theorem estimate_le_usingCCtxParams (c : CPar) (mode : RowMode) (stream u : Bool
     rw [hu]
     exact Nat.le_refl _
 
+/-! ### jobs with long-distance matching -/
+
+/-- `p` is the same kind of job as `q` INCLUDING the long-distance matcher (same switch, bucket log and minimum match, a hash log that is not larger:
+the default follows the window log, which the source may have shrunk), otherwise smaller as in `Le` -/
+structure LeL (p q : RP) : Prop where
+  core : Le { p with ldm := false } { q with ldm := false }
+  on : p.ldm = q.ldm
+  lh : p.ldmHashLog ≤ q.ldmHashLog
+  lb : p.ldmBucketSizeLog = q.ldmBucketSizeLog
+  lm : p.ldmMinMatch = q.ldmMinMatch
+
+/-- what the long-distance matcher adds to the budget -/
+def ldmExtra (p : RP) : Nat :=
+  if p.ldm then ldmBuckets p + ldmHSize p * sizeof_ldmEntry + a64 (blockSize p / p.ldmMinMatch * sizeof_rawSeq) else 0
+
+theorem estimate_split (p : RP) : estimate p = estimate { p with ldm := false } + ldmExtra p := by
+  cases hl : p.ldm <;>
+    simp [estimate, sizeofMatchState, ldmExtra, maxNbLdmSeq, blockSize, windowSize, maxNbSeq, chainSize, chainAllocated, rowUsed, hSize, h3Size,
+      hashLog3, isOpt, ldmBuckets, ldmHSize, hl] <;> omega
+
+theorem estimate_mono_ldm (p q : RP) (h : LeL p q) : estimate p ≤ estimate q := by
+  rw [estimate_split p, estimate_split q]
+  have h0 := estimate_mono _ _ h.core
+  have hb : blockSize p ≤ blockSize q := by
+    have := blockSize_mono _ _ h.core
+    simpa [blockSize, windowSize] using this
+  have he : ldmExtra p ≤ ldmExtra q := by
+    unfold ldmExtra ldmBuckets ldmHSize
+    rw [h.on, h.lb, h.lm]
+    cases q.ldm
+    · simp
+    · simp only [if_true]
+      have := a64_mono _ _ (Nat.mul_le_mul_right sizeof_rawSeq (Nat.div_le_div_right (c := q.ldmMinMatch) hb))
+      have h1 := pow2_mono _ _ h.lh
+      have h2 : p.ldmHashLog - min q.ldmBucketSizeLog p.ldmHashLog ≤ q.ldmHashLog - min q.ldmBucketSizeLog q.ldmHashLog := by
+        have := h.lh
+        omega
+      have h3 := pow2_mono _ _ h2
+      have h4 := Nat.mul_le_mul_right sizeof_ldmEntry h1
+      omega
+  omega
+
+theorem leLB_sound (p q : RP) (h : leLB p q = true) : LeL p q := by
+  unfold leLB at h
+  simp only [Bool.and_eq_true, decide_eq_true_eq] at h
+  obtain ⟨⟨⟨⟨h1, h2⟩, h3⟩, h4⟩, h5⟩ := h
+  exact ⟨leB_sound _ _ h1, h2, h3, h4, h5⟩
+
 end ZstdVerif.Estimate
